@@ -107,7 +107,10 @@ CLAIMED["C04"] = dict(
          "WAVEX and RF64 write-side models (SfModel/Wavex.lean, Rf64.lean: both RF64 header forms, auto-downgrade; session theorems for WAVEX; their readers are not modelled). " + _WR +
          "The stand-alone models are tied by their own campaigns: every accepted sample-granular encoding x channels x rates (incl. 1, 65536, 2^30, 2^31-1) x lengths, ALL header and tail bytes "
          "of the store after open, after a header update and after close, and the parsers on library files plus thousands of truncated/damaged variants. The geometry (block length, pad allowance, "
-         "rate quantiser per container) is written from the format definitions, not measured. Partial: header bytes of the other 17 containers are not modelled (covered by B).",
+         "rate quantiser per container) is written from the format definitions, not measured. Partial: header bytes of the other 17 containers are not modelled (covered by B). "
+         "Round 4 (vlib/small3.py, driver `sfmodel small3`): NIST/SPHERE (SfProps/C04Nist.lean: nist_reopen_info over the strstr / sscanf reader for every accepted configuration and session), "
+         "VOC (C04Voc.lean: the divisor quantisers, voc_reopen_info_partial / voc_snapshot_valid_partial with the classes of KF-VOC-MONO-G711 / KF-VOC-UPDATE excluded and characterised exactly) and "
+         "XI (C04Xi.lean: full strength since the repair of KF-XI-HEADER, xi_close_old_rule) have stand-alone byte-exact models of header, closed bytes of any session and reader.",
     technique="Lean 4 theorems over hand-written container models + differential correspondence (file bytes, parser verdicts) + predicate on implementation transcripts",
     design_ref="DESIGN.md §7 C04")
 CLAIMED["C07"] = dict(
